@@ -29,6 +29,9 @@
 #include <algorithm>
 #include <signal.h>
 #include <event2/watch.h>
+extern "C" {
+#include "bufferevent-internal.h"   // only read: is a deferred callback of the connection's bufferevent scheduled at teardown (picks the key of the leak clause)
+}
 
 namespace {
 using hc::ReqRec;
@@ -41,6 +44,9 @@ const char *AN[] = {"none", "cancel-next", "new-request", "free-conn", "break+te
 
 const char *K_UAF_CLEANUP = "asan:heap-use-after-free@evhttp_connection_cb_cleanup";
 const char *K_STUCK = "C27/request-after-exhausted-retries-never-dispatched";
+// connection + base freed (teardown) while the bufferevent's deferred error event of a refused (ECONNREFUSED) connect is still scheduled:
+// the bufferevent is never finalized (same root cause as C10/bev-with-deferred-callback-leaks-at-base-free)
+const char *K_TEARDOWN_LEAK = "C27/leak-teardown-while-deferred-connect-error-pending";
 
 struct Plan {
   int nreq = 1; bool post[3] = {false, false, false}; int retries = 0; int refuse_first = 0; bool refuse_after_fault = false;
@@ -51,6 +57,10 @@ struct Plan {
   // refused attempts, retry waits, the exchange itself and the 300 s afterwards: the fault runs from a user event's callback
   // that becomes active right before the j-th poll of the loop (i.e. as the first callback of step j)
   bool at_step = false;
+  // how a connection attempt is refused: false = the listener's path is gone (connect() fails at once with ENOENT: synchronous
+  // failure of the connect call), true = the socket file is still there but nobody listens (ECONNREFUSED: reported through the
+  // bufferevent's deferred error event)
+  bool refuse_econnrefused = false;
 };
 
 struct RunA {
@@ -152,7 +162,11 @@ struct RunA {
     CHECK(bind(w.lfd, (struct sockaddr *)&w.laddr, w.lalen) == 0, "harness/bind", "bind: %s", strerror(errno));
     CHECK(listen(w.lfd, 16) == 0, "harness/listen", "listen: %s", strerror(errno));
   }
-  void unlisten() { if (listening) { w.stop_listening(); listening = false; } }
+  void unlisten() {
+    if (!listening) return;
+    if (p.refuse_econnrefused) { if (w.lfd >= 0) { close(w.lfd); w.lfd = -1; } } else w.stop_listening();
+    listening = false;
+  }
 
   // in_loop: called from the callback of the user's event inside event_base_loop (the harness must not re-enter the loop there)
   void fire_fault(bool in_loop = false) {
@@ -255,11 +269,12 @@ OutA run_a(const Plan &p, long k) {
     out.sent_on_fault_conn = r.sent_on_fault_conn; out.fault_fired = r.fault_fired; out.connects = (int)sim_sys_calls[SYS_CONNECT];
     out.steps = r.steps; out.fired_outstanding = r.fired_outstanding; out.fired_connecting = r.fired_connecting;
     out.fired_retry_pending = r.fired_retry_pending; out.fired_retried_connecting = r.fired_retried_connecting;
-    bool torn = r.teardown;
+    bool torn = r.teardown, deferred_pending = false;
+    if (torn && r.w.evcon) { struct bufferevent *bev = evhttp_connection_get_bufferevent(r.w.evcon); if (bev) deferred_pending = (BEV_UPCAST(bev)->deferred.evcb_flags & (EVLIST_ACTIVE | EVLIST_ACTIVE_LATER)) != 0; }
     r.drop_hooks();      // the user's event and watcher go before the connection and the base
     r.w.close_world();   // marks still-queued requests as abandoned, frees the connection, then the base
     for (size_t i = 0; i < out.recs.size(); i++) { out.recs[i].abandoned = out.recs[i].abandoned || (out.recs[i].cb_calls == 0 && !out.recs[i].cancelled && torn); }
-    r.w.check_no_leak("C27/leak", "C27/fd-leak");
+    r.w.check_no_leak(torn && deferred_pending && p.refuse_econnrefused ? K_TEARDOWN_LEAK : "C27/leak", "C27/fd-leak");
   }
   return out;
 }
@@ -294,8 +309,12 @@ int leg_a(Src &s) {
   p.act = rare(s, 1, 2) ? A_NONE : (int)s.below(A__N); p.act_req = s.below((uint32_t)p.nreq);
   p.own = rare(s, 1, 6);
   { uint32_t b = s.below(8); p.backend = b < 6 ? 0 : (int)b - 5; }
-  p.at_step = rare(s, 2, 5);     // drawn last: inputs that end before this draw keep their meaning (byte offsets)
-  TR("plan: nreq=%d retries=%d resp_kind=%d refuse_first=%d fault=%s on conn %d refuse_after=%d cb-action=%s@%d own=%d backend=%d position=%s", p.nreq, p.retries, p.resp_kind, p.refuse_first, FN[p.fault], p.fault_conn, p.refuse_after_fault, AN[p.act], p.act_req, p.own, p.backend, p.at_step ? "loop-step" : "byte");
+  p.at_step = rare(s, 2, 5);     // drawn last: inputs that end before these draws keep their meaning (byte offsets, ENOENT)
+  p.refuse_econnrefused = rare(s, 1, 3);
+  // listed finding: teardown right after a refused connect was issued leaves the bufferevent's deferred error event behind; keep exploring
+  // teardown with the other refusal kind
+  if (p.refuse_econnrefused && (p.fault == F_TEARDOWN || p.act == A_BREAK_TEARDOWN) && verif_known(K_TEARDOWN_LEAK)) { verif_known_skipped(K_TEARDOWN_LEAK); p.refuse_econnrefused = false; }
+  TR("plan: nreq=%d retries=%d resp_kind=%d refuse_first=%d fault=%s on conn %d refuse_after=%d cb-action=%s@%d own=%d backend=%d position=%s refusal=%s", p.nreq, p.retries, p.resp_kind, p.refuse_first, FN[p.fault], p.fault_conn, p.refuse_after_fault, AN[p.act], p.act_req, p.own, p.backend, p.at_step ? "loop-step" : "byte", p.refuse_econnrefused ? "ECONNREFUSED" : "ENOENT");
   // 1. the same exchange without the fault (measures how many bytes the faulted connection carries / how many loop steps the exchange takes)
   Plan base = p; base.fault = F_NONE;
   TR("run without fault");
@@ -318,6 +337,7 @@ int leg_a(Src &s) {
   verif_class(("fault:" + std::string(FN[p.fault])).c_str()); verif_class(("cb-action:" + std::string(AN[p.act])).c_str());
   if (p.refuse_first) verif_class("refused-connects"); if (p.retries) verif_class("retries>0"); if (p.fault_conn) verif_class("fault-on-reconnect");
   if (p.nreq > 1) verif_class("pipelined"); if (failures) verif_class("failure-reported");
+  if (p.refuse_econnrefused && (p.refuse_first || p.refuse_after_fault)) verif_class("refusal:ECONNREFUSED");
   if (p.at_step) { verif_class("position:loop-step"); if (connecting) verif_class("step-fault-while-connecting"); if (retry_pending) verif_class("step-fault-while-retry-pending"); if (retried_connecting) verif_class("step-fault-while-retried-connect-in-flight"); }
   verif_class_n("faulted_runs", runs);
   // loop-step position: the fault struck at least once while a request was outstanding, and the exchange involved a connect in flight
